@@ -41,6 +41,10 @@ theorem frame (hN : Names L E) (f : Nat) (s : St L) (m : ModPath) (hm : GoodName
 theorem unload_clears (s : St L) (m : ModPath) : m ∉ (unload L E s m).mods ∧ Sub L s (unload L E s m) :=
   ⟨unload_not_mem L E s m, unload_sub L E s m⟩
 
+/-- the cascade of `unload` never runs out of fuel: any fuel above the number of registered modules gives the same result -/
+theorem unload_fuel (s : St L) (m : ModPath) (k : Nat) : unloadF L E (s.mods.length + k) s m = unload L E s m :=
+  unloadF_fuel L E s m k
+
 /-- … the cascade is complete: nothing that is left depends on something that was removed -/
 theorem unload_cascade (s : St L) (m : ModPath) :
     ∀ x, x ∈ (unload L E s m).mods → ∀ d, d ∈ depsOf L E (unload L E s m) x → d ∈ s.mods → d ∈ (unload L E s m).mods :=
@@ -147,6 +151,39 @@ theorem det (hW : World L E B rank TreeOk) (hR : RenderLocal L B TreeOk) (f f' :
     rw [hr, hr', hs]
   · rw [transpile_det_err L E B rank TreeOk hW f s m hm hSt n e he hnr,
       transpile_det_err L E B rank TreeOk hW f' s' m hm hSt' n e (by rw [hs]; exact he) hnr']
+
+/-- `StableU` (stable, or: only base modules are registered and they hold their base tables) is preserved by EVERY
+    operation with well-formed names — also by unloading library modules, whose cascade removes every non-library module. -/
+theorem inv_stableU (hW : World L E B rank TreeOk) (hBW : BaseWorld L E B rank TreeOk) (f : Nat) (s : St L) (op : Op Src)
+    (hop : OpAny L E rank TreeOk op) (hSt : StableU L E B rank TreeOk s) (hnr : (step L E f s op).1 ≠ .error .recursion) :
+    StableU L E B rank TreeOk (step L E f s op).2 :=
+  step_stableU L E B rank TreeOk hW hBW f s op hop hSt hnr
+
+/-- DETERMINISM over all histories INCLUDING unloads of library modules, for every module outside the library base.
+    Additional hypothesis `BaseWorld`: the base is what the libraries reach, and loading base modules while only base
+    modules are registered restores their base tables (how the library stubs load in each other's half-loaded context is
+    not derived in the model; the correspondence streams and the search exercise it on the real code). -/
+theorem det_all (hW : World L E B rank TreeOk) (hBW : BaseWorld L E B rank TreeOk) (hR : RenderLocal L B TreeOk)
+    (f f' : Nat) (s₀ s s₀' s' : St L)
+    (h0 : StableU L E B rank TreeOk s₀) (hreach : ReachU L E rank TreeOk f s₀ s)
+    (h0' : StableU L E B rank TreeOk s₀') (hreach' : ReachU L E rank TreeOk f' s₀' s')
+    (hsrc : s'.mainSrc = s.mainSrc) (m : ModPath) (hm : GoodName m) (hmB : m ∉ B.mods)
+    (hnr : (transpile L E f s m).1 ≠ .error .recursion) (hnr' : (transpile L E f' s' m).1 ≠ .error .recursion) :
+    (transpile L E f s m).1 = (transpile L E f' s' m).1 := by
+  have hSt := reach_stableU L E B rank TreeOk hW hBW f s₀ s h0 hreach
+  have hSt' := reach_stableU L E B rank TreeOk hW hBW f' s₀' s' h0' hreach'
+  have hs : srcOf L E s' = srcOf L E s := srcOf_congr L E s s' hsrc
+  have hmain : SrcAcyclic L E rank TreeOk s.mainSrc := by rcases hSt with h | h <;> exact h.2.mainAcyclic
+  obtain ⟨n, hn⟩ := determined L E B rank TreeOk hW s hmain m
+  obtain ⟨hT1, hE1⟩ := transpile_detU L E B rank TreeOk hW hBW hR f s m hm hmB hSt hnr
+  obtain ⟨hT2, hE2⟩ := transpile_detU L E B rank TreeOk hW hBW hR f' s' m hm hmB hSt' hnr'
+  rcases hn with ⟨T, hT⟩ | ⟨e, he⟩
+  · obtain ⟨t, ht, hr⟩ := hT1 n T hT
+    obtain ⟨t', ht', hr'⟩ := hT2 n T (by rw [hs]; exact hT)
+    rw [hs, ht] at ht'
+    cases ht'
+    rw [hr, hr', hs]
+  · rw [hE1 n e he, hE2 n e (by rw [hs]; exact he)]
 
 /-- `unload m; load m` gives `m` the state of a fresh load: registered, the tree of its source, exactly its reference
     table — the same as `load m` in any other stable state (e.g. a fresh process). -/
@@ -271,6 +308,17 @@ theorem worldRetry : World descLang envRetry B0 rk (descTreeOk B0) := descWorld 
 
 theorem initStable : Stable descLang envUnload B0 rk (descTreeOk B0) init :=
   desc_init_stable rk pool main {} (by decide) (by decide)
+
+/-- `BaseWorld` is satisfiable (here: the world without pinned base) -/
+theorem baseWorld0 : BaseWorld descLang envUnload B0 rk (descTreeOk B0) where
+  reach b hb := by simp [B0] at hb
+  load f s ps hSt hps hnr := by
+    have : ps = [] := by
+      cases ps with
+      | nil => rfl
+      | cons p rest => have := hps p (by simp); simp [B0] at this
+    subst this
+    cases f <;> exact ⟨rfl, hSt⟩
 
 /-- `app.ab` (which calls into `app.a`) is good: it has a reference table at import depth 2 -/
 theorem abGood : (refTbl descLang B0 (srcOf descLang envUnload init) 2 ab).isSome = true := by decide +kernel
